@@ -305,3 +305,14 @@ pub fn routes_agree(routes: &Routes, bytes: &[u8], rep: &mut crate::util::Report
     }
     n
 }
+
+
+/// The same attribute OBJECTS (clones taken from an already encoded message) in a new message under another transaction
+/// id: attribute values must not remember anything about the message they were encoded in.
+pub fn reissue(msg: &StunMessage, tid2: [u8; 12]) -> StunMessage {
+    let mut b = StunMessageBuilder::new(msg.method(), msg.class()).with_transaction_id(TransactionId::from(tid2));
+    for a in msg.attributes() {
+        b = b.with_attribute(a.clone());
+    }
+    b.build()
+}
